@@ -205,6 +205,26 @@ End E2ED.
    result, captures included, provided every group a back-reference reads is in the
    analyzer's back-reference set [bs] (the parser's invariant).                             *)
 (* ====================================================================================== *)
+
+(* a successful compilation certifies the look-behind shape arrow A needs *)
+Lemma visit_lbk' bs e g hc pc ns r : visit bs e g hc pc ns = inr r -> lbk e.
+Proof. apply (visit_lbk [] eq_refl bs 2 (le_n 2) 1 (le_n 1)). Qed.
+
+Lemma lbc_of : forall e b, rok b e -> lbk e -> lbc e.
+Proof.
+  induction e using expr_ind'; intros b Hr Hk; try exact I.
+  - rewrite rok_concat in Hr. rewrite lbk_concat in Hk. rewrite lbc_concat.
+    induction H as [|x r Hx Hrr IH]; [exact I|]. destruct Hr as [R1 R2]. destruct Hk as [K1 K2]. split; eauto.
+  - rewrite rok_alt in Hr. rewrite lbk_alt in Hk. rewrite lbc_alt.
+    induction H as [|x r Hx Hrr IH]; [exact I|]. destruct Hr as [R1 R2]. destruct Hk as [K1 K2]. split; eauto.
+  - cbn [rok lbk lbc] in *. eauto.
+  - cbn [rok lbk lbc] in *. destruct Hr as [R1 R2]. destruct Hk as [K1 K2]. split; [eauto|]. intros Hb. split; auto.
+  - cbn [rok lbk lbc] in *. destruct Hr as [R1 R2]. eauto.
+  - cbn [rok lbk lbc] in *. eauto.
+  - cbn [rok lbk lbc] in *. destruct b; [|contradiction]. destruct Hr as (R1 & R2 & R3). destruct Hk as (K1 & K2 & K3).
+    repeat split; eauto.
+Qed.
+
 Section E2EF.
 Variable cs : list (list nat).
 Hypothesis W : valid_chars cs.
@@ -218,7 +238,6 @@ Variable p : prog.
 Hypothesis Hcomp : compile bs (wrap e) = inr p.
 Hypothesis Hok : oke true 0 (wrap e).
 Hypothesis Hrefs : refs_ok True (refd bs) (wrap e).
-Hypothesis Hlbc : lbc (wrap e).
 
 Let NC := 2 * S (ngroups e).
 Let fuel := S (length (c_text cx)).
@@ -228,7 +247,12 @@ Proof.
   unfold dsearch, search_list. fold fuel.
   assert (Hfuel : length (concat cs) < fuel) by (unfold fuel; rewrite Htext; lia).
   assert (Hp : preA bs (wrap e)).
-  { destruct Hok as (Hw & Hz & _ & _). exact (conj Hw (conj Hz (conj Hrefs Hlbc))). }
+  { destruct Hok as (Hw & Hz & _ & Hrk).
+    assert (Hlbc : lbc (wrap e)).
+    { apply (lbc_of _ true Hrk). unfold compile in Hcomp.
+      destruct (visit bs (wrap e) 0 false 0 (ngroups (wrap e) * 2)) as [er|r] eqn:Hv; [discriminate|].
+      eapply visit_lbk'; eauto. }
+    exact (conj Hw (conj Hz (conj Hrefs Hlbc))). }
   assert (Hs : st_ok cs (c_pos cx, init_caps (S (ngroups e)))).
   { split; [exact Hpos|]. cbn [snd]. unfold init_caps. apply Forall_forall.
     intros x Hx. apply repeat_spec in Hx. subst. exact I. }
